@@ -8,6 +8,7 @@ import (
 	"runtime/pprof"
 	"sort"
 	"strings"
+	"time"
 )
 
 // Shard mode (legs 1-3: parse-only; every panic of config_parser.Parse is recoverable in-process).
@@ -26,7 +27,7 @@ type shardResult struct {
 	Leg         string            `json:"leg"`
 	Shard       int               `json:"shard"`
 	Evaluations int64             `json:"evaluations"`
-	Distinct    int64             `json:"distinct"`
+	Distinct    int64             `json:"distinct"` // distinct AND non-trivial (see verdict.Parsed)
 	Accepted    int64             `json:"accepted"`
 	Rejected    int64             `json:"rejected"`
 	Base        int64             `json:"base"`
@@ -35,6 +36,7 @@ type shardResult struct {
 	Viol        []shardViol       `json:"viol"`
 	Samples     []string          `json:"samples"`
 	Extra       map[string]int64  `json:"extra"`
+	Capped      bool              `json:"capped"`
 }
 
 type shardCtx struct {
@@ -46,6 +48,21 @@ type shardCtx struct {
 	viol   map[string]*shardViol
 	harn   map[string]*shardViol
 	preSharded bool // the leg assigns whole base cases to shards itself
+	deadline   time.Time
+	tick       int
+}
+
+// over: the shard's internal deadline has passed (checked every 64 cases); the shard then stops evaluating
+// and reports Capped — never an oracle, only a cap (the run is then reported as not exhaustive).
+func (c *shardCtx) over() bool {
+	if c.res.Capped {
+		return true
+	}
+	c.tick++
+	if c.tick%64 == 0 && !c.deadline.IsZero() && time.Now().After(c.deadline) {
+		c.res.Capped = true
+	}
+	return c.res.Capped
 }
 
 var dryRun = os.Getenv("C17_DRY") != "" // count texts only (sizing aid)
@@ -76,15 +93,17 @@ func (c *shardCtx) mine(text string) bool {
 }
 
 func (c *shardCtx) eval(text string, wantCanon string) {
-	if !c.mine(text) {
+	if !c.mine(text) || c.over() {
 		return
 	}
 	c.res.Evaluations++
-	c.res.Distinct++
 	if dryRun {
 		return
 	}
 	v := checkText(text, wantCanon)
+	if v.Parsed {
+		c.res.Distinct++
+	}
 	if v.Accept {
 		c.res.Accepted++
 		c.shapes[h64(v.Canon)] = struct{}{}
@@ -129,8 +148,8 @@ func flatten(m map[string]*shardViol) []shardViol {
 	return out
 }
 
-func runShard(leg string, shard, of int, thorough bool) {
-	c := &shardCtx{shard: shard, of: of, seen: map[uint64]struct{}{}, shapes: map[uint64]struct{}{},
+func runShard(leg string, shard, of int, thorough bool, budget time.Duration) {
+	c := &shardCtx{deadline: time.Now().Add(budget), shard: shard, of: of, seen: map[uint64]struct{}{}, shapes: map[uint64]struct{}{},
 		viol: map[string]*shardViol{}, harn: map[string]*shardViol{}}
 	c.res.Leg, c.res.Shard = leg, shard
 	if pf := os.Getenv("C17_PROF"); pf != "" { // sizing aid
